@@ -7,7 +7,7 @@ Lemma sound_all doc :
   check_doc doc = [] -> unique_names doc = true -> ok_app_arg_unique doc = true ->
   forall r, rule_ok_impl r doc = true.
 Proof.
-  intros Hc Hu Ha r. destruct r; cbn [rule_ok_impl rule_ok].
+  intros Hc Hu Ha r. unfold rule_ok_impl. destruct r; cbn [rule_ok_gen].
   - apply sound_reserved; assumption.
   - apply sound_dup_field; assumption.
   - apply sound_dup_arg; assumption.
@@ -51,7 +51,7 @@ Proof. vm_compute. repeat split. Qed.
 Lemma sound_full_refuted : ~ sound_full.
 Proof.
   intros H. destruct int_range_refuted as [H1 [H2 [H3 [H4 _]]]].
-  specialize (H w_int_range H1 H2 H3 RDirectiveArgs). cbn [rule_ok] in H. congruence.
+  specialize (H w_int_range H1 H2 H3 RDirectiveArgs). change (ok_directive_args w_int_range = true) in H. congruence.
 Qed.
 
 (** a schema the specification accepts and the checker rejects: additional non-null argument with a default value *)
